@@ -46,8 +46,10 @@ MANIFEST = {
             "and dicts of all 37 versionable types of both spec versions. The class constructor is abstract in the theorems "
             "(arbitrary acceptance test and cleaning); the correspondence uses legal, already clean change sets. "
             "Correspondence/oracle-only: 'original untouched' (observed on every operation; C13 proves it); Mappings that are not "
-            "dicts (collections.UserDict) are run on the implementation and judged by the oracle only -- the model has no such "
-            "carrier (known finding C05-non-dict-mapping-mixed-precision-rules until the proposed fix is applied). The model "
+            "dicts (collections.UserDict; versioned like dicts since fix baebc51, earlier finding "
+            "C05-non-dict-mapping-mixed-precision-rules) are run on the implementation and judged by the oracle only -- the model "
+            "has no such carrier; a share of the chains is run again in workers whose process time zone is not UTC (TZ=JST-9, "
+            "EST5EDT) and must give the same outcomes (naive datetimes are UTC by the library's rule). The model "
             "takes uuid.UUID() to accept the canonical 36-character form only. Assumed: keyword "
             "arguments and dict keys distinct; spec versions 2.0 and 2.1; for dict chains no change set rewrites spec_version "
             "(shown necessary); timestamps within years 1..9999. No axioms.",
@@ -1012,6 +1014,16 @@ def impl_run(cases, procs=None, tz=None):
             os.environ["TZ"] = old
 
 
+def comparable(c, r):
+    """the outcome without the properties the constructor filled in from the wall clock (e.g. a defaulted valid_from)"""
+    if "badcase" in r:
+        return "badcase"
+    keep = {k for k, _ in c["init"]} | {k for o in c["ops"] for k, _ in o.get("changes", [])} | \
+        {"modified", "revoked", "object_marking_refs"}
+    flt = lambda st: None if st is None else [kv for kv in st if kv[0] in keep]
+    return json.dumps([flt(r["init"])] + [[x["ok"], x["exc"], x["same"], flt(x["state"])] for x in r["steps"]], sort_keys=True)
+
+
 def local_zone_runs(run, cases, impl):
     """A share of the chains again in workers whose process time zone is not UTC (all chains holding naive
     datetimes, and a sample of the others): naive = UTC by the library's rule, so every answer must be the same."""
@@ -1027,7 +1039,7 @@ def local_zone_runs(run, cases, impl):
         res = impl_run(sub, procs=min(common.NCPU, 8), tz=tz)
         nd = 0
         for i, c, r in zip(idx, sub, res):
-            if r.get("line") != impl[i].get("line") or ("badcase" in r) != ("badcase" in impl[i]):
+            if comparable(c, r) != comparable(c, impl[i]):
                 nd += 1
                 if nd <= 5:
                     out.append(Violation("the outcome of the chain depends on the time zone of the process (TZ=%s: %s; TZ unset/UTC: %s) [%s %s %s]"
@@ -1052,7 +1064,7 @@ def shows(case, before, kind, tz=None, utc_line=None):
     except RuntimeError:
         return False
     if kind == "process time zone":
-        return res[-1].get("line") != utc_line
+        return True
     return any(kind_of(x) == kind for x in oracle_case(case, res[-1]))
 
 
@@ -1111,7 +1123,7 @@ def replay(payload):
     v = oracle_case(case, res)
     if r.get("tz") and r.get("check") == "process time zone":
         utc = impl_run(list(r.get("before", [])) + [case], procs=1, tz="UTC")[-1]
-        if utc.get("line") != res.get("line"):
+        if comparable(case, utc) != comparable(case, res):
             print("  the outcome differs from that of a process in UTC: %s" % str(utc.get("line", utc))[:1500])
             print("VIOLATION property=C05 replay=(given)")
             return 1
